@@ -15,3 +15,4 @@ for pid in ("C06", "C07", "C18"):
     bounded(pid, "taskgraph", "bounded/taskgraph.py")
 for pid in ("C10", "C12", "C13", "C15"):
     bounded(pid, "sched_small", "bounded/sched_small.py")
+bounded("C16", "eventqueue", "bounded/eventqueue.py")
